@@ -48,10 +48,13 @@ def run(ctx, prop="C08"):
         rescheds = [pipeline.make_schedule(rng, rl, slow) for rl in relines]
         steps = pipeline.make_steps(rng, rng.randint(6, 30), rng.choice([0.3, 1, 2]), reloads=nrel, excludes=rng.random() < 0.5)
         if sid % 3 == 1:       # directed scenarios: result-cache key collisions / exclude-reload-same-query
-            kind = "cachekeys" if (sid % 2 == 1 or race) else "exclude-reload"
+            kind = "cachekeys" if (sid % 2 == 1 or race) else ("exclude-reload" if sid % 4 == 0 else "exclude-race")
             n = rng.choice([150, 330, 1200])
             lines = pipeline.make_lines(rng, n, sparse=True)
             sched = pipeline.make_schedule(rng, lines, 0.2)
+            if kind == "exclude-race":      # keep the loader busy (a burst every few ms) so that the coordinator naps between rounds
+                lines = pipeline.make_lines(rng, 600, sparse=True)
+                sched = [{"sleep": 0.004, "lines": lines[i:i + 2]} for i in range(0, len(lines), 2)]
             nrel = 1 if kind == "exclude-reload" else 0
             relines = [pipeline.make_lines(rng, rng.choice([n, n, 200]), sparse=True) for _ in range(nrel)]
             rescheds = [pipeline.make_schedule(rng, rl, 0.2) for rl in relines]
@@ -136,7 +139,11 @@ def report_rejections(ctx, events, table, bounds, results, jobs, label):
         acc, devs, res = validate(ctx, evs, table, "%s-%d" % (label, guard))
         for sid, flag in devs:
             s_evs, s_tb = results[sid]
-            if flag == 2:
+            if flag == 3:
+                case = {"events": s_evs, "table": s_tb, "kf": {"finding": "F21", "site": "EvtSearchNew", "kind": "exclusion-lost-by-coalescing"}}
+                ctx.violation("session %d: an exclusion requested by the user is not in effect at quiescence (its search request was "
+                              "overwritten in the one-slot event box by the next query change before the coordinator handled it)" % sid, case)
+            elif flag == 2:
                 case = {"events": s_evs, "table": s_tb, "kf": {"finding": "F17", "site": "ChunkCache", "kind": "stale-after-exclude"}}
                 ctx.violation("session %d: a result computed after an exclusion still contains the excluded item (chunk cache "
                               "refilled by an older request after the coordinator cleared it)" % sid, case)
